@@ -174,9 +174,21 @@ def run(case, ctx):
                for v in c['cells']):
             out.label('sqlite:text-with-NUL')
     out.label('source:' + source)
+    int_labels = (source == 'df' and desc['n'] % 2 == 0 and any(
+        c['name'].isdigit() and c['name'].isascii() for c in desc['cols']))
+
+    def label_of(c):
+        if int_labels and c['name'].isdigit() and c['name'].isascii():
+            return int(c['name'])
+        return c['name']
     if source == 'df':
         from tdda.constraints import discover_df
         df = F.build_frame(desc)
+        if int_labels:
+            # column labels that are numbers (a frame read without a header,
+            # years as columns): constraints are reported under the label
+            df.columns = [label_of(c) for c in desc['cols']]
+            out.label('integer-column-labels')
         ok, cons = quiet(discover_df, df, inc_rex=False)
     else:
         from tv.gen import sqlite as S
@@ -201,7 +213,7 @@ def run(case, ctx):
             want = S.discovered(c, vals, n)
         else:
             want = R.discovered(c['kind'], vals, n)
-        want_fields[c['name']] = (want, c, vals)
+        want_fields[label_of(c)] = (want, c, vals)
         nn = R.nonnull(vals)
         if len(nn) >= 2 and len(want) >= 2:
             out.nontrivial = True
@@ -219,7 +231,8 @@ def run(case, ctx):
     if set(got_fields) != set(want_fields):
         out.violate('exact-statistics', 'field-set',
                     '%s: fields discovered %r, columns %r'
-                    % (source, sorted(got_fields), sorted(want_fields)))
+                    % (source, sorted(got_fields, key=repr),
+                       sorted(want_fields, key=repr)))
         return out
     for (name, (want, c, vals)) in want_fields.items():
         got = dict(got_fields[name])
